@@ -432,6 +432,25 @@ def run(chk):
                                              'keep_alive': bool(sc['pool'].get('keep_alive'))})
     for sc, o in zip(ks, kobs):
         kill_judge(chk, sc, o)
+    # an apply task that overruns its limit (only that task is interrupted, the workers live on), then a map-family call on the same
+    # workers - with and without a progress bar, whose handler looks at the same flags: like on a fresh pool
+    ta = []
+    for _ in range(30 if chk.tier == 'quick' else 400):
+        nj = rng.choice([1, 2, 3])
+        k = rng.randint(1, 3)
+        ta.append({'seed': rng.randint(0, 10 ** 6), 'pool': {'n_jobs': nj, 'start_method': 'fork', 'keep_alive': rng.random() < .5}, 'relax_shape': True,
+                   'ops': [{'op': 'apply_batch', 'tasks': [{'idx': i} for i in range(k)], 'task_timeout': rng.choice([0.2, 0.3]), 'get_timeout': 30,
+                            'dur': {'kind': 'map', 'map': {str(rng.randrange(k)): rng.choice([50.0, 600.0])}, 'default': 0.01}},
+                           {'op': rng.choice(['map', 'map_unordered', 'imap', 'imap_unordered']), 'n': rng.randint(3, 20), 'chunk_size': rng.choice([1, 2]), 'elem': 'scalar',
+                            'progress_bar': rng.random() < .7}]})
+    tobs = run_scenarios(chk, 'an apply task times out, then a map-family call (with a bar) on the same workers (DetSim)', ta, {'C06', 'C01', 'C02', 'C03', 'C19'},
+                         nontrivial=lambda sc, o: True, dist=lambda sc, o: {'bar': bool(sc['ops'][1].get('progress_bar')), 'n_jobs': sc['pool']['n_jobs']})
+    for sc, o in zip(ta, tobs):
+        if o.get('harness_error') or o.get('stuck') or len(o.get('ops', [])) < 2:
+            continue
+        if o['ops'][1].get('outcome') != 'ok':
+            chk.violation('later_call_like_fresh', {'scenario': sc}, {'outcome': o['ops'][1].get('outcome'), 'raised': o['ops'][1].get('exc')},
+                          'a call after a timed-out apply task behaves as on a fresh pool', input_class='after_apply_timeout')
     chk.assumptions += ['the parameters held by kept-alive workers are compared by presence only (their identity is checked by C10)']
 
     def search():
